@@ -28,6 +28,7 @@ type vWorld struct {
 	// KF-delete-and-write region); off by default
 	allowDelWrite bool
 	kfDelWrite    bool // the region was entered at least once (sticky)
+	computed      bool // the schema also has a sorted index, a trigger and a column created after them
 	// pending effects of the running transaction
 	pn    int
 	pOp   [8]int // 0 put a, 1 merge a, 2 put b, 3 delete, 4 insert with a, 5 insert with b only
